@@ -1,6 +1,7 @@
 package scen
 
 import (
+	"encoding/json"
 	"fmt"
 	"os"
 	"sort"
@@ -158,6 +159,65 @@ func runCrashHistory(h crashHistory, seen map[uint64]bool, st *explore.Stats) (s
 	return fmt.Sprintf("effects=%d", len(effects)-k0), vs
 }
 
+// runC05Concurrent: every schedule of concurrent writers (the C17 world), and after each one every prefix of
+// the peer's effect log as a crash image; acknowledgements are marks in that log.
+func runC05Concurrent(c *explore.Ctx, arg string) {
+	var a C17Arg
+	if err := json.Unmarshal([]byte(arg), &a); err != nil {
+		c.Stats.HarnessErrs = append(c.Stats.HarnessErrs, err.Error())
+		return
+	}
+	seen := map[uint64]bool{}
+	d := &explore.ScheduleDFS{
+		Settle: settle, Scenario: "crash-during-" + a.Name(),
+		New:    func() (explore.World, error) { return NewConcWritersKind(a.Kind, a.N, a.Per) },
+		Bound:  a.Bound, Horizon: 400, Stats: c.Stats, Journal: c.JournalHist, Expired: c.Expired,
+		Shards: a.Shards, Shard: a.Shard,
+		Terminal: func(world explore.World, hist []string) []explore.Violation {
+			w := world.(*ConcWriters)
+			w.net.Gates.Enable(nil) // every writer has returned; the recoveries below must not park
+			effects := w.peer.Effects()
+			written := map[string]ipfslog.Entry{}
+			for _, e := range w.store.OpLog().GetEntries().Slice() {
+				written[e.GetHash().String()] = e
+			}
+			kind, addr, identity, k0 := w.storeType(), w.addr, w.identity, w.k0
+			var vs []explore.Violation
+			for k := k0; k <= len(effects); k++ {
+				var sig strings.Builder
+				var acked []string
+				for _, e := range effects[:k] {
+					if e.Kind == "ack" {
+						acked = append(acked, e.Key[2:])
+						continue
+					}
+					fmt.Fprintf(&sig, "%s|%s|%s|%x;", e.Kind, e.Space, e.Key, explore.Hash(string(e.Value)))
+				}
+				sort.Strings(acked)
+				id := explore.Hash(kind + sig.String() + strings.Join(acked, ","))
+				if seen[id] {
+					continue
+				}
+				c.Stats.Count("recoveries")
+				c.Stats.State(fmt.Sprintf("crash-image|%x", id))
+				rv := recoverAndCheckAs("W", kind, addr, effects[:k], acked, written, identity)
+				if len(rv) == 0 {
+					seen[id] = true // a clean image is not recovered again; one with a finding is (confirmation re-runs)
+				}
+				for _, v := range rv {
+					v.Detail = fmt.Sprintf("crash after effect %d of %d (%s) of this schedule: %s", k, len(effects), describeEffect(effects, k), v.Detail)
+					vs = append(vs, v)
+				}
+			}
+			return vs
+		},
+	}
+	d.Run()
+	for i := range c.Stats.Violations {
+		c.Stats.Violations[i].Property = "C05"
+	}
+}
+
 func describeEffect(effects []sim.Effect, k int) string {
 	if k == 0 {
 		return "nothing"
@@ -167,8 +227,13 @@ func describeEffect(effects []sim.Effect, k int) string {
 }
 
 func recoverAndCheck(kind, addr string, effects []sim.Effect, acked []string, written map[string]ipfslog.Entry, identityBefore string) (vs []explore.Violation) {
+	return recoverAndCheckAs("R", kind, addr, effects, acked, written, identityBefore)
+}
+
+// recoverAndCheckAs: the recovering peer keeps the crashed peer's name (its keys are filed under it).
+func recoverAndCheckAs(peerName, kind, addr string, effects []sim.Effect, acked []string, written map[string]ipfslog.Entry, identityBefore string) (vs []explore.Violation) {
 	net := sim.NewNet()
-	p := net.AddPeer("R")
+	p := net.AddPeer(peerName)
 	p.Isolated = true
 	disk := sim.NewDisk()
 	ks := sim.NewKeystore()
@@ -405,14 +470,29 @@ func runDiskCyclesOpts(kind string, cycles int, remote, shared bool) (string, []
 func init() {
 	explore.Register(&explore.CheckDef{
 		ID: "C05", Level: "model_checking",
-		Rule: "all histories of length <= depth over {local write, write by remote A, sync of A's heads, snapshot save, write by remote B, sync of B's heads} on replica R, for the three store types; for every history the ordered effect log of R (block writes including fetched blocks, cache puts, keystore puts) with acknowledgement markers (write returned, replicated event emitted) is recorded and for EVERY prefix of it (deduplicated by content) a recovered, isolated world is built, the database opened and loaded; oracle: recovered entries include every acknowledged entry, only written entries, closed under ancestry, order and view equal the reference over the recovered set, identity unchanged, a new write succeeds. Plus clean close/reopen cycles (1-3, with and without replication) on real leveldb directories. states = distinct crash images, transitions = recoveries. Non-trivial = crash points strictly inside an action (not at a quiescent boundary).",
+		Rule: "all histories of length <= depth over {local write, write by remote A, sync of A's heads, snapshot save, write by remote B, sync of B's heads} on replica R, for the three store types; for every history the ordered effect log of R (block writes including fetched blocks, cache puts, keystore puts) with acknowledgement markers (write returned, replicated event emitted) is recorded and for EVERY prefix of it (deduplicated by content) a recovered, isolated world is built, the database opened and loaded; oracle: recovered entries include every acknowledged entry, only written entries, closed under ancestry, order and view equal the reference over the recovered set, identity unchanged, a new write succeeds. Crashes while several goroutines write: every interleaving of two concurrent writers at the write path's schedule points (three store types; thorough also three writers, <= 3 deviations), and for each schedule every prefix of the effect log it produced, same oracle. Plus clean close/reopen cycles (1-3, with and without replication, also with two databases opened through one options value) on real leveldb directories. states = distinct crash images, transitions = recoveries. Non-trivial = crash points strictly inside an action (not at a quiescent boundary).",
 		Units: func(tier string) []explore.Unit {
 			n := 16
 			if tier == "thorough" {
 				n = 48
 			}
 			u := explore.ChunkUnits("crash-"+tier, n)
-			return append(u, explore.ChunkUnits("disk-"+tier, 3)...)
+			u = append(u, explore.ChunkUnits("disk-"+tier, 3)...)
+			// crashes while several goroutines write: every interleaving of two writers at the write path's schedule
+			// points, and for each one every prefix of the effect log it produced
+			for _, k := range []string{"eventlog", "keyvalue-same", "docstore-same"} {
+				for _, x := range c17Units(C17Arg{Kind: k, N: 2, Per: 1, Bound: -1}, 4) {
+					x.Arg, x.Name = "X"+x.Arg, "crash-during-"+x.Name
+					u = append(u, x)
+				}
+			}
+			if tier == "thorough" {
+				for _, x := range c17Units(C17Arg{Kind: "eventlog", N: 3, Per: 1, Bound: 3}, 16) {
+					x.Arg, x.Name = "X"+x.Arg, "crash-during-"+x.Name
+					u = append(u, x)
+				}
+			}
+			return u
 		},
 		Budget: func(tier string) float64 {
 			if tier == "thorough" {
@@ -421,6 +501,10 @@ func init() {
 			return 200
 		},
 		RunUnit: func(c *explore.Ctx) {
+			if strings.HasPrefix(c.Spec.Unit.Arg, "X") {
+				runC05Concurrent(c, c.Spec.Unit.Arg[1:])
+				return
+			}
 			prefix, i, n := explore.ParseChunk(c.Spec.Unit.Arg)
 			var cases []explore.Case
 			if strings.HasPrefix(prefix, "disk-") {
